@@ -78,7 +78,9 @@ TRestart ==
 TWrite ==
   /\ Line.ev = "W"
   /\ okstart[Line.p]
-  /\ Line.k = "plan" => IF Line.st = "RU" THEN Rank(store[Line.p]) >= 2 ELSE store[Line.p] = Line.st
+  \* (the plan's own writes come from one goroutine, each logged before the next is made: TLC can always place the model's
+  \* silent write between the two log lines, so equality can be demanded)
+  /\ Line.k = "plan" => store[Line.p] = Line.st
   /\ UNCHANGED vars
 
 Silent == (Internal \/ (\E c \in Callers : WGiveUp(c)) \/ (\E p \in Plans : Age(p))) /\ UNCHANGED l
